@@ -1,5 +1,6 @@
 import Model.Emit
 import Model.EmitQuote
+import Model.EmitFuse
 import Generated.C16CompileNodes
 import Drivers.Common
 /-! `vm_c16`: line protocol over `Model.Emit`, instantiated with the regenerated tables
@@ -8,8 +9,10 @@ import Drivers.Common
   path <type>
     → special <fn> reads=<a,b> inner=<Emb:a|b;…> · scalar <fn> reads=<…> · reflective node=<0|1> fields=<a,b>
       · unexported <field> · unknown
-  emit <type> <hasNode 0|1> <name:k,name:k,…>      k: s scalar · n nil · p pointer to a non-node · b blob (func, …) · o object (a nested `node.Probe`)
+  emit <type> <hasNode 0|1> <name:k,name:k,…>      k: s scalar · n nil · p pointer to a non-node · b blob (func, …) · u slice/map with unnamed element type · o object (a nested `node.Probe`)
     → struct <type> node=<0|1> fields=<a,b> · ctor <type> <fn> fields=<a,b> · error <…> · crash
+  kinds
+    → the names of the described node structs that are `data.GetValue` (the node kinds an AST can hold)
   facts
     → nodeNeedsTag=<b> ptrAssertUnchecked=<b> structs=<n> special=<n> scalars=<n> aux=<n>
 
@@ -20,6 +23,11 @@ scalar cases (`Model.EmitQuote`; byte strings and texts in hex):
   printed <k> <hex>  → ok <hex> · none   value of the literal after Generator.printf at indentation k
   int <decimal>      → ok <hex of the text %d prints> <what Go reads back>
   float <negzero|zero|posinf|neginf|nan> → ok <hex of the text goFloatLiteral writes>
+
+fused comparison (`Model.EmitFuse`; operand kinds int <i> · half <twice> · true 0 · false 0 · null 0 · noorder 0):
+  cmp <kind> <arg> <n>  → lt · eq · gt · un         `data.LooseCompare(v, IntValue n)`
+  fuse <kind> <arg> <n> → lt=<0|1> le=<0|1> fused=<0|1> rewritten=<0|1>
+                          `$v < n`, `$v <= n`, VarIntLe{Lit: n}, and `$v < n` emitted as `$v <= n-1`
 -/
 open Model.Emit
 
@@ -48,6 +56,7 @@ def valOf (k : String) : Val :=
   if k == "n" then .nil
   else if k == "p" then .plainPtr
   else if k == "b" then .blob
+  else if k == "u" then .unnamed
   else if k == "o" then .obj "node.Probe" true .fnil
   else .scalar "x"
 
@@ -66,6 +75,7 @@ def errStr : Err → String
   | .unexported ty f => "unexported " ++ ty ++ " " ++ f
   | .unsupported w => "unsupported " ++ w
   | .unknownType ty => "unknown-type " ++ ty
+  | .malformed => "malformed"
   | .shape => "shape"
 
 def emitStr (ty : String) (hn : Bool) (fields : List String) : String :=
@@ -112,8 +122,34 @@ def floatCase (c : String) : String :=
   | some v => "ok " ++ bytesToHex (Model.EmitQuote.showFloat true v)
   | none => "bad-request"
 
+open Model.EmitFuse in
+def operandOf (kind arg : String) : Option V :=
+  match kind, arg.toInt? with
+  | "int", some i => some (.int i)
+  | "half", some t => some (.half t)
+  | "true", _ => some (.bool true)
+  | "false", _ => some (.bool false)
+  | "null", _ => some .null
+  | "noorder", _ => some .noOrder
+  | _, _ => none
+
+open Model.EmitFuse in
+def cmpStr : Cmp → String
+  | .lt => "lt" | .eq => "eq" | .gt => "gt" | .unordered => "un"
+
+open Model.EmitFuse in
+def fuseCase (what kind arg n : String) : String :=
+  match operandOf kind arg, n.toInt? with
+  | some v, some n =>
+    if what == "cmp" then cmpStr (looseCmp looseReal v n)
+    else "lt=" ++ b01 (evalLt looseReal v n) ++ " le=" ++ b01 (evalLe looseReal v n) ++
+      " fused=" ++ b01 (evalVarIntLe looseReal v n) ++ " rewritten=" ++ b01 (evalLtRewritten looseReal v n)
+  | _, _ => "bad-request"
+
 def handle (line : String) : String :=
   match line.splitOn " " with
+  | ["cmp", k, a, n] => fuseCase "cmp" k a n
+  | ["fuse", k, a, n] => fuseCase "fuse" k a n
   | ["quote", h] => withHex h fun bs => okHex (some (Model.EmitQuote.quote (fun _ => true) bs))
   | ["quote"] => okHex (some (Model.EmitQuote.quote (fun _ => true) []))
   | ["quotenp", h] => withHex h fun bs => okHex (some (Model.EmitQuote.quote (fun _ => false) bs))
@@ -130,6 +166,7 @@ def handle (line : String) : String :=
   | ["path", ty] => pathStr ty
   | ["emit", ty, hn] => emitStr ty (hn == "1") []
   | ["emit", ty, hn, fs] => emitStr ty (hn == "1") (if fs == "" then [] else fs.splitOn ",")
+  | ["kinds"] => join " " ((tables.structs.filter fun d => d.isGetValue && d.name.startsWith "node.").map (·.name))
   | ["facts"] =>
       "nodeNeedsTag=" ++ b01 tables.nodeNeedsTag ++ " ptrAssertUnchecked=" ++ b01 tables.ptrAssertUnchecked ++
       " structs=" ++ toString tables.structs.length ++ " special=" ++ toString tables.special.length ++
